@@ -4,10 +4,13 @@
   `mergeC o a b` is the children map of `A.Merge(B, opts)` (`a`, `b` the children maps of A, B;
   `o` the list strategy selected by the options).  Documents are WF nodes: every container's
   keys strictly sorted (= a Go map).  "Merging never modifies A or B" has no counterpart in the
-  value model (a function cannot modify its arguments); it is carried by the harness's
-  before/after snapshots.
+  value model (a function cannot modify its arguments); it is stated and proved on the
+  heap-level model (section "Pointer level" below: `heap_merge_prefix`, `heap_merge_abs`,
+  `heap_merge_sharing`, `heap_merge_spine_path`) and tied to the code by the harness's
+  sharing-map correspondence and pointer-level before/after snapshots (harness/heap_share.go).
 -/
 import YtkProofs.Merge
+import YtkProofs.Heap
 
 namespace Ytk.C04
 
@@ -131,5 +134,293 @@ theorem nonvacuous_append : mergeC .append exA exB =
     [("a", i 1), ("b", .list [i 9]),
      ("c", .list [i 1, .cont [("p", i 1)], i 3, Node.null, .cont [("q", i 2)]]), ("d", i 4), ("e", i 5)] := by
   decide
+
+/-! ## Pointer level: Merge on the heap model (YtkModel/Heap.lean)
+
+  "Merging never modifies A or B" at the level the sentence is about: a document is a root
+  address in a heap of cells, allocation appends, so "no existing object was written" is "the
+  old heap is a prefix of the new one".  `mergeContainersF o f h c1 c2` is
+  `A.Merge(B, opts)` for the containers at addresses `c1`, `c2` (`o` = list strategy, `f` = fuel). -/
+
+section heap
+open Ytk.Heap
+
+/-- Merge (either list strategy) never writes an existing cell: the old heap is a prefix of the
+    new one, cell for cell — so EVERY root of the old heap, A and B in particular, abstracts to
+    exactly the document it did before. -/
+theorem heap_merge_prefix (o : ListStrategy) (f : Nat) (h h' : Heap) (c1 c2 r : Addr)
+    (hm : mergeContainersF o f h c1 c2 = some (h', r)) :
+    h ≤ h' ∧ (∀ b, b < h.size → h'.get? b = h.get? b) ∧
+      ∀ (g : Nat) (x : Addr) (n : Node), absH g h x = some n → absH g h' x = some n :=
+  ⟨mergeContainersF_le hm, fun _ hb => Heap.get?_eq_of_le (mergeContainersF_le hm) hb,
+   fun g x n hn => absH_mono (mergeContainersF_le hm) g x n hn⟩
+
+/-- the same for OverlayDocument.Merged (a fold of Merge over the layers) -/
+theorem heap_mergeAll_prefix (o : ListStrategy) (h h' : Heap) (layers : List Addr) (r : Addr)
+    (hm : Ytk.Heap.mergeAll o h layers = some (h', r)) :
+    h ≤ h' ∧ ∀ (g : Nat) (x : Addr) (n : Node), absH g h x = some n → absH g h' x = some n := by
+  have hl : h ≤ h' := by
+    unfold Ytk.Heap.mergeAll at hm
+    exact Heap.le_trans (Heap.le_alloc h (.cont [])) (mergeAllF_le layers _ h' _ r hm)
+  exact ⟨hl, fun g x n hn => absH_mono hl g x n hn⟩
+
+/-- REFINEMENT: for roots with defined abstractions `cont a`, `cont b`, the heap-level merge
+    succeeds and its result abstracts to the value-level merge `mergeC o a b` of the
+    abstractions (both list strategies); A and B still abstract to `a` and `b`. -/
+theorem heap_merge_abs (o : ListStrategy) (f : Nat) (h : Heap) (hnil : h.NilOk) (c1 c2 : Addr)
+    (a b : AMap Node) (ha : absH f h c1 = some (.cont a)) (hb : absH f h c2 = some (.cont b)) :
+    ∃ h' r, mergeContainersF o f h c1 c2 = some (h', r) ∧
+      absH f h' r = some (.cont (mergeC o a b)) ∧
+      absH f h' c1 = some (.cont a) ∧ absH f h' c2 = some (.cont b) := by
+  obtain ⟨ka, h1⟩ := get?_cont_of_absH ha
+  obtain ⟨kb, h2⟩ := get?_cont_of_absH hb
+  obtain ⟨h', r, hm, hr⟩ := mergeNodeF_abs o f h c1 c2 _ _ hnil ha hb
+  have hl := mergeNodeF_le o f h c1 c2 h' r hm
+  refine ⟨h', r, by rw [mergeContainersF_eq h1 h2]; exact hm, ?_, absH_mono hl f c1 _ ha,
+    absH_mono hl f c2 _ hb⟩
+  rw [hr, mergeNode_cont_cont]; rfl
+
+/-- … in particular on a closed, acyclic heap for any two container cells and any fuel above
+    their ranks. -/
+theorem heap_merge_abs_closed (o : ListStrategy) (h : Heap) (hc : h.Closed) (rank : Addr → Nat)
+    (hr : h.RankedBy rank) (hnil : h.NilOk) (c1 c2 : Addr) (ka kb : AMap Addr)
+    (h1 : h.get? c1 = some (.cont ka)) (h2 : h.get? c2 = some (.cont kb))
+    (f : Nat) (hf1 : rank c1 < f) (hf2 : rank c2 < f) :
+    ∃ a b h' r, absH f h c1 = some (.cont a) ∧ absH f h c2 = some (.cont b) ∧
+      mergeContainersF o f h c1 c2 = some (h', r) ∧
+      absH f h' r = some (.cont (mergeC o a b)) ∧
+      absH f h' c1 = some (.cont a) ∧ absH f h' c2 = some (.cont b) := by
+  obtain ⟨d, rfl⟩ : ∃ d, f = d + 1 := ⟨f - 1, by omega⟩
+  obtain ⟨n1, hn1⟩ := absH_of_ranked hc hr d c1 (Nat.le_of_lt_succ hf1) (Heap.get?_lt h1)
+  obtain ⟨n2, hn2⟩ := absH_of_ranked hc hr d c2 (Nat.le_of_lt_succ hf2) (Heap.get?_lt h2)
+  have k1 := absH_kind hn1 h1
+  have k2 := absH_kind hn2 h2
+  cases n1 with
+  | leaf _ => simp [Node.isCont, Cell.isCont] at k1
+  | list _ => simp [Node.isCont, Cell.isCont] at k1
+  | cont a =>
+    cases n2 with
+    | leaf _ => simp [Node.isCont, Cell.isCont] at k2
+    | list _ => simp [Node.isCont, Cell.isCont] at k2
+    | cont b =>
+      obtain ⟨h', r, hm, e1, e2, e3⟩ := heap_merge_abs o (d + 1) h hnil c1 c2 a b hn1 hn2
+      exact ⟨a, b, h', r, hn1, hn2, hm, e1, e2, e3⟩
+
+/-- The driver's entry points (`mergeContainers`, `abs`: fuel = heap size): on every closed
+    acyclic heap the merge of any two container cells succeeds and refines the value-level merge. -/
+theorem heap_merge_total (o : ListStrategy) (h : Heap) (hc : h.Closed) (hac : h.Acyclic)
+    (hnil : h.NilOk) (c1 c2 : Addr) (ka kb : AMap Addr)
+    (h1 : h.get? c1 = some (.cont ka)) (h2 : h.get? c2 = some (.cont kb)) :
+    ∃ a b h' r, abs h c1 = some (.cont a) ∧ abs h c2 = some (.cont b) ∧
+      mergeContainers o h c1 c2 = some (h', r) ∧
+      abs h' r = some (.cont (mergeC o a b)) ∧
+      abs h' c1 = some (.cont a) ∧ abs h' c2 = some (.cont b) := by
+  obtain ⟨n1, hn1⟩ := abs_defined hc hac (Heap.get?_lt h1)
+  obtain ⟨n2, hn2⟩ := abs_defined hc hac (Heap.get?_lt h2)
+  have k1 := absH_kind hn1 h1
+  have k2 := absH_kind hn2 h2
+  cases n1 with
+  | leaf _ => simp [Node.isCont, Cell.isCont] at k1
+  | list _ => simp [Node.isCont, Cell.isCont] at k1
+  | cont a =>
+    cases n2 with
+    | leaf _ => simp [Node.isCont, Cell.isCont] at k2
+    | list _ => simp [Node.isCont, Cell.isCont] at k2
+    | cont b =>
+      obtain ⟨h', r, hm, e1, e2, e3⟩ := heap_merge_abs o h.size h hnil c1 c2 a b hn1 hn2
+      have hsz := Heap.size_le_of_le (mergeContainersF_le hm)
+      exact ⟨a, b, h', r, hn1, hn2, hm, absH_fuel_le hsz e1, absH_fuel_le hsz e2,
+        absH_fuel_le hsz e3⟩
+
+/-- SHARING: on a closed heap the result root is a newly allocated cell, and every cell
+    reachable from it is either newly allocated, or reachable from A, or reachable from B, or
+    the shared nil leaf (what `coalesce` returns when neither side has a value) — nothing else.
+    (It does NOT say the result shares nothing with its inputs: members present on one side
+    only, list items and coalesced values ARE the input objects.) -/
+theorem heap_merge_sharing (o : ListStrategy) (f : Nat) (h h' : Heap) (hc : h.Closed)
+    (hnil : h.NilOk) (c1 c2 r : Addr) (hm : mergeContainersF o f h c1 c2 = some (h', r)) :
+    (h.size ≤ r ∧ r < h'.size) ∧
+    ∀ b, Reach h' r b →
+      (h.size ≤ b ∧ b < h'.size) ∨ Reach h c1 b ∨ Reach h c2 b ∨ b = nilAddr := by
+  obtain ⟨ka, kb, h1, h2, hm'⟩ := mergeContainersF_inv hm
+  have ctx := shareCtx_of_closed hc hnil (Heap.get?_lt h1) (Heap.get?_lt h2)
+  have hs := mergeNodeF_spine_fresh hm' h1 h2 (Or.inl ⟨rfl, rfl⟩)
+  refine ⟨⟨hs.1, hs.2.1⟩, ?_⟩
+  obtain ⟨_, hi, hg⟩ := mergeNodeF_share ctx o f h c1 c2 h' r (MInv.init h _)
+    (Or.inl (Or.inl (.refl _))) (Or.inl (Or.inr (Or.inl (.refl _)))) hm'
+  intro b hb
+  rcases Good.reach ctx hi hb hg with hS | hnew
+  · exact Or.inr hS
+  · exact Or.inl hnew
+
+/-- The same two statements for OverlayDocument.Merged (`mergeAll`: a new empty container, then
+    Merge with every layer in order): the result abstracts to the value-level `mergeAll` of the
+    layers' abstractions … -/
+theorem heap_mergeAll_abs (o : ListStrategy) (f : Nat) (h : Heap) (hnil : h.NilOk)
+    (layers : List Addr) (lsN : List (AMap Node))
+    (hl : optMapM (absH f h) layers = some (lsN.map Node.cont)) (hf : 0 < f) :
+    ∃ h' r, mergeAllF o f (h.alloc (.cont [])).1 h.size layers = some (h', r) ∧
+      absH f h' r = some (.cont (Ytk.mergeAll o lsN)) := by
+  obtain ⟨d, rfl⟩ : ∃ d, f = d + 1 := ⟨f - 1, by omega⟩
+  have hl0 := Heap.le_alloc h (.cont [])
+  exact mergeAllF_abs o (d + 1) layers _ h.size [] lsN (nilOk_mono hnil hl0)
+    (absH_alloc_cont (f := d) (h := h) (ys := []) (ns := []) rfl) (optMapM_mono hl0 hl)
+
+/-- … and everything reachable from the (new) result root is new, or reachable from one of the
+    layers, or the shared nil leaf. -/
+theorem heap_mergeAll_sharing (o : ListStrategy) (h h' : Heap) (hc : h.Closed) (hnil : h.NilOk)
+    (layers : List Addr) (hl : ∀ l ∈ layers, l < h.size) (r : Addr)
+    (hm : Ytk.Heap.mergeAll o h layers = some (h', r)) :
+    h.size ≤ r ∧ ∀ b, Reach h' r b →
+      (h.size ≤ b ∧ b < h'.size) ∨ (∃ l ∈ layers, Reach h l b) ∨ b = nilAddr := by
+  let S : Addr → Prop := fun b => (∃ l ∈ layers, Reach h l b) ∨ b = nilAddr
+  have ctx : ShareCtx h S := shareCtx_of_layers hc hnil hl
+  have hm' : mergeAllF o (h.alloc (.cont [])).1.size (h.alloc (.cont [])).1 h.size layers =
+      some (h', r) := hm
+  have hi0 : MInv h S (h.alloc (.cont [])).1 :=
+    (MInv.init h S).alloc (c := .cont []) (by intro k hk; simp [Cell.kids] at hk)
+  obtain ⟨_, hi, hg, hr⟩ := mergeAllF_share ctx o _ layers _ h' h.size r hi0
+    (Good.alloc_new (MInv.init h S) _) (Nat.le_refl _)
+    (fun l hl' => Or.inl (Or.inl ⟨l, hl', .refl _⟩)) hm'
+  refine ⟨hr, fun b hb => ?_⟩
+  rcases Good.reach ctx hi hb hg with hS | hnew
+  · exact Or.inr hS
+  · exact Or.inl hnew
+
+/-- SPINE: whenever two containers (two lists) are merged — at the root and at every recursive
+    call, i.e. at every node of the merged spine — the result is a newly allocated container
+    (list), never one of the inputs' cells. -/
+theorem heap_merge_spine_fresh (o : ListStrategy) (f : Nat) (h h' : Heap) (n v r : Addr)
+    (cn cv : Cell) (hm : mergeNodeF o f h n v = some (h', r))
+    (hn : h.get? n = some cn) (hv : h.get? v = some cv)
+    (hk : (cn.isCont = true ∧ cv.isCont = true) ∨ (cn.isList = true ∧ cv.isList = true)) :
+    h.size ≤ r ∧ r < h'.size ∧
+      ∃ c, h'.get? r = some c ∧ c.isCont = cn.isCont ∧ c.isList = cn.isList :=
+  mergeNodeF_spine_fresh hm hn hv hk
+
+/-- SPINE, path by path: on a closed heap whose children maps are Go maps (unique keys), for
+    every path `ks` of member names that leads to a container both in A and in B, the result
+    has a container at `ks` that was allocated by this Merge call — the root (`ks = []`) and
+    every container on the merged spine is a new object, for both list strategies. -/
+theorem heap_merge_spine_path (o : ListStrategy) (f : Nat) (h h' : Heap) (hc : h.Closed)
+    (hs : h.MapsOk) (c1 c2 r : Addr) (hm : mergeContainersF o f h c1 c2 = some (h', r))
+    (ks : List String) (x y : Addr) (kx ky : AMap Addr)
+    (hx : lookupKeys h c1 ks = some x) (hy : lookupKeys h c2 ks = some y)
+    (cx : h.get? x = some (.cont kx)) (cy : h.get? y = some (.cont ky)) :
+    ∃ z m, lookupKeys h' r ks = some z ∧ h.size ≤ z ∧ z < h'.size ∧ h'.get? z = some (.cont m) := by
+  obtain ⟨ka, kb, h1, h2, hm'⟩ := mergeContainersF_inv hm
+  exact mergeNodeF_spine_path o hc hs ks f h c1 c2 h' r x y (Heap.le_refl _) (Heap.get?_lt h1)
+    (Heap.get?_lt h2) hm' hx hy ⟨kx, cx⟩ ⟨ky, cy⟩
+
+/-- Any other combination of kinds (a leaf on either side, container against list): nothing is
+    allocated, the heap is returned as it is, and the result IS one of the two input nodes or the
+    shared nil leaf (`coalesce` returns an existing node). -/
+theorem heap_merge_otherwise (o : ListStrategy) (f : Nat) (h : Heap) (n v : Addr) (cn cv : Cell)
+    (hn : h.get? n = some cn) (hv : h.get? v = some cv)
+    (h1 : ¬ (cn.isCont = true ∧ cv.isCont = true)) (h2 : ¬ (cn.isList = true ∧ cv.isList = true)) :
+    mergeNodeF o (f + 1) h n v = some (h, coalesceH h n v) ∧
+      (coalesceH h n v = v ∨ coalesceH h n v = n ∨ coalesceH h n v = nilAddr) := by
+  refine ⟨mergeNodeF_other hn hv h1 h2, ?_⟩
+  unfold coalesceH
+  split
+  · exact Or.inl rfl
+  · split
+    · exact Or.inr (Or.inl rfl)
+    · exact Or.inr (Or.inr rfl)
+
+/-- List strategies at pointer level. Append: the new list holds the ITEMS of the two input
+    lists themselves (the same addresses), A's then B's — nothing is copied. -/
+theorem heap_append_items (f : Nat) (h h' : Heap) (n v r : Addr) (xs ys : List Addr)
+    (hn : h.get? n = some (.list xs)) (hv : h.get? v = some (.list ys))
+    (hm : mergeNodeF .append (f + 1) h n v = some (h', r)) :
+    r = h.size ∧ h'.get? r = some (.list (xs ++ ys)) := by
+  rw [mergeNodeF_list_append hn hv] at hm
+  simp only [Option.some.injEq] at hm
+  have e1 : h' = (h.alloc (.list (xs ++ ys))).1 := (congrArg Prod.fst hm).symm
+  have e2 : r = h.size := (congrArg Prod.snd hm).symm
+  subst e1; subst e2
+  exact ⟨rfl, Heap.get?_alloc_new _ _⟩
+
+/-- Meld: beyond the common prefix the new list holds exactly what
+    `firstValidListItem(i, l1, l2)` returns — the existing item of the longer list. -/
+theorem heap_meld_tail (f : Nat) (h h' : Heap) (n v r : Addr) (xs ys : List Addr)
+    (hn : h.get? n = some (.list xs)) (hv : h.get? v = some (.list ys))
+    (hm : mergeNodeF .meld (f + 1) h n v = some (h', r)) :
+    ∃ zs, h'.get? r = some (.list zs) ∧
+      ∀ i, min xs.length ys.length ≤ i → zs.getD i nilAddr = firstValidListItemH i [xs, ys] := by
+  rw [mergeNodeF_list_meld hn hv] at hm
+  cases hf : meldItems (mergeNodeF .meld f) h xs ys with
+  | none => simp [hf] at hm
+  | some q =>
+    obtain ⟨h1, zs⟩ := q
+    simp only [hf, Option.bind_some, Option.some.injEq] at hm
+    have e1 : h' = (h1.alloc (.list zs)).1 := (congrArg Prod.fst hm).symm
+    have e2 : r = h1.size := (congrArg Prod.snd hm).symm
+    subst e1; subst e2
+    exact ⟨zs, Heap.get?_alloc_new _ _, meldItems_tail xs ys h h1 zs hf⟩
+
+/-- … and writes to those new cells (and allocations) afterwards leave every root of the old
+    heap — A and B — unchanged. -/
+theorem heap_merge_result_writes (o : ListStrategy) (f : Nat) (h h1 h2 : Heap) (c1 c2 r : Addr)
+    (hm : mergeContainersF o f h c1 c2 = some (h1, r))
+    (hw : Writes (fun _ b => h.size ≤ b) h1 h2) :
+    h ≤ h2 ∧ ∀ (g : Nat) (x : Addr) (n : Node), absH g h x = some n → absH g h2 x = some n := by
+  have hl := hw.le_of_fresh (mergeContainersF_le hm)
+  exact ⟨hl, fun g x n hn => absH_mono hl g x n hn⟩
+
+/-- … for literal builder histories (`Op`, `applyOps`) on the new cells. -/
+theorem heap_merge_result_ops (o : ListStrategy) (f : Nat) (h h1 h2 : Heap) (c1 c2 r : Addr)
+    (ops : List Op) (hm : mergeContainersF o f h c1 c2 = some (h1, r))
+    (hq : ∀ op ∈ ops, h.size ≤ op.target) (he : applyOps h1 ops = some h2) :
+    ∀ (g : Nat) (x : Addr) (n : Node), absH g h x = some n → absH g h2 x = some n :=
+  (heap_merge_result_writes o f h h1 h2 c1 c2 r hm (applyOps_writes hq he)).2
+
+/-! ### Non-vacuity on a concrete heap
+
+  0 nilLeaf · 1 leaf 1 · 2 leaf nil (not the shared one) · 3 [#1, nilLeaf] · 4 {x: #1} ·
+  5 A = {c: #4, l: #3, n: nilLeaf, p: #1} · 6 leaf 2 · 7 [#2, #6, #6] · 8 {y: #6} ·
+  9 B = {c: #8, l: #7, n: #2, q: #6} -/
+def exMHeap : Heap := ⟨[.leaf Scalar.null, .leaf ⟨"int", "1"⟩, .leaf Scalar.null, .list [1, 0],
+  .cont [("x", 1)], .cont [("c", 4), ("l", 3), ("n", 0), ("p", 1)], .leaf ⟨"int", "2"⟩,
+  .list [2, 6, 6], .cont [("y", 6)], .cont [("c", 8), ("l", 7), ("n", 2), ("q", 6)]]⟩
+
+def exMRank : Addr → Nat | 5 => 2 | 9 => 2 | 3 => 1 | 4 => 1 | 7 => 1 | 8 => 1 | _ => 0
+
+theorem nonvacuous_heap_wf :
+    exMHeap.Closed ∧ exMHeap.RankedBy exMRank ∧ exMHeap.NilOk ∧ exMHeap.MapsOk :=
+  ⟨closed_of_all (by decide), rankedBy_of_all (by decide), rfl, mapsOk_of_all (by decide)⟩
+
+/-- the path ["c"] leads to a container on both sides (#4, #8); in the result it leads to the
+    new cell #10 -/
+theorem nonvacuous_heap_spine :
+    lookupKeys exMHeap 5 ["c"] = some 4 ∧ lookupKeys exMHeap 9 ["c"] = some 8 ∧
+    ((mergeContainers .meld exMHeap 5 9).bind fun p => lookupKeys p.1 p.2 ["c"]) = some 10 := by
+  decide
+
+/-- meld: three new cells (merged `c`, melded `l`, the root), the old ten cells untouched, the
+    result abstracts to the value-level merge of the abstractions -/
+theorem nonvacuous_heap_merge_meld :
+    (mergeContainers .meld exMHeap 5 9).map (fun p => (p.1.size, p.2)) = some (13, 12) ∧
+    (mergeContainers .meld exMHeap 5 9).map (fun p => p.1.cells.take 10) = some exMHeap.cells ∧
+    (mergeContainers .meld exMHeap 5 9).map (fun p => p.1.cells.drop 10) =
+      some [.cont [("x", 1), ("y", 6)], .list [1, 6, 6],
+            .cont [("c", 10), ("l", 11), ("n", 0), ("p", 1), ("q", 6)]] ∧
+    ((mergeContainers .meld exMHeap 5 9).bind fun p => abs p.1 p.2) =
+      (match abs exMHeap 5, abs exMHeap 9 with
+       | some (.cont a), some (.cont b) => some (.cont (mergeC .meld a b))
+       | _, _ => none) := by
+  decide
+
+theorem nonvacuous_heap_merge_append :
+    (mergeContainers .append exMHeap 5 9).map (fun p => p.1.cells.drop 10) =
+      some [.cont [("x", 1), ("y", 6)], .list [1, 0, 2, 6, 6],
+            .cont [("c", 10), ("l", 11), ("n", 0), ("p", 1), ("q", 6)]] ∧
+    ((mergeContainers .append exMHeap 5 9).bind fun p => abs p.1 p.2) =
+      (match abs exMHeap 5, abs exMHeap 9 with
+       | some (.cont a), some (.cont b) => some (.cont (mergeC .append a b))
+       | _, _ => none) := by
+  decide
+
+end heap
 
 end Ytk.C04
